@@ -72,6 +72,8 @@ pub struct Cfg {
     pub allow_f2_f3: bool,
     /// loop-flavoured if-bodies outside loops (documented panic)
     pub allow_loop_outside: bool,
+    /// single-operand expressions and mostly call statements (control-flow skeletons)
+    pub simple: bool,
     pub fault: FaultMode,
 }
 
@@ -86,6 +88,7 @@ impl Cfg {
             arrays: false,
             allow_f2_f3: true,
             allow_loop_outside: false,
+            simple: false,
             fault: FaultMode::None,
         }
     }
@@ -368,7 +371,7 @@ impl Gen {
     }
 
     pub fn expr(&mut self, t: &Ty, depth: usize) -> Option<Ex> {
-        let n = 1 + if self.rng.chance(1, 2) {
+        let n = 1 + if self.cfg.simple || self.rng.chance(1, 2) {
             0
         } else {
             self.rng.below(self.cfg.max_chain)
@@ -619,7 +622,12 @@ impl Gen {
     /// one statement of a block of the given kind (3 = function body)
     fn stmt(&mut self, kind: u8, depth: usize, last: bool, result: &Ty) -> Option<St> {
         let loopish = kind == 1 || kind == 2;
-        let r = self.rng.below(16);
+        let r = if self.cfg.simple {
+            // control-flow skeletons: half of the statements are control statements
+            [0, 5, 7, 7, 9, 9, 10, 10, 11, 11, 12, 13, 14, 9, 11, 7][self.rng.below(16)]
+        } else {
+            self.rng.below(16)
+        };
         match r {
             0..=4 => self.stmt_let(depth),
             5..=6 => self.stmt_set(depth),
@@ -919,4 +927,210 @@ pub fn gen_wild(seed: u64, cfg: &Cfg) -> (Prog, Vec<String>) {
     let mut g = Gen::new(seed, c);
     let p = g.program();
     (p, g.faults)
+}
+
+/// control-flow skeleton: simple expressions, deep nesting
+pub fn gen_flow(seed: u64, clean: bool) -> Prog {
+    let mut c = Cfg::wf();
+    c.simple = true;
+    c.max_depth = 4;
+    c.max_stmts = 4;
+    c.max_fns = 2;
+    c.allow_f2_f3 = !clean;
+    c.ext = false;
+    Gen::new(seed, c).program()
+}
+
+/// all permutations-by-sampling of the top level that keep the constants' relative order
+pub fn gen_perm(seed: u64, max_variants: usize) -> Vec<Prog> {
+    let mut rng = Rng::new(seed ^ 0x9e3779b9);
+    let base = if rng.chance(1, 2) {
+        gen_wf(seed, &Cfg::wf())
+    } else {
+        // a faulted program without duplicate declaration names
+        let (b, vars) = gen_fault1(seed, &Cfg::wf(), 3);
+        vars.into_iter()
+            .find(|(class, _)| !class.starts_with("D1") && !class.starts_with("D3") && !class.starts_with("D6"))
+            .map_or(b, |x| x.1)
+    };
+    let mut out = vec![base.clone()];
+    for _ in 0..max_variants {
+        let mut idx: Vec<usize> = (0..base.len()).collect();
+        for i in (1..idx.len()).rev() {
+            idx.swap(i, rng.below(i + 1));
+        }
+        // constants keep their relative order: put the constants, in source order, into the
+        // positions that constants occupy after the shuffle
+        let const_positions: Vec<usize> = (0..idx.len())
+            .filter(|k| matches!(base[idx[*k]], Top::Const(..)))
+            .collect();
+        let consts_in_order: Vec<usize> = (0..base.len()).filter(|k| matches!(base[*k], Top::Const(..))).collect();
+        for (pos, src) in const_positions.iter().zip(consts_in_order.iter()) {
+            idx[*pos] = *src;
+        }
+        let q: Prog = idx.iter().map(|k| base[*k].clone()).collect();
+        out.push(q);
+    }
+    out
+}
+
+fn with_bodies(base: &Prog, keep: Option<usize>, donor: Option<&Vec<Vec<St>>>) -> Prog {
+    let mut k = 0usize;
+    base.iter()
+        .map(|t| match t {
+            Top::Fn(f) => {
+                let mut f = f.clone();
+                if Some(k) != keep {
+                    f.body = match donor {
+                        Some(d) if !d.is_empty() => d[k % d.len()].clone(),
+                        _ => vec![],
+                    };
+                }
+                k += 1;
+                Top::Fn(f)
+            }
+            other => other.clone(),
+        })
+        .collect()
+}
+
+/// group for C17: base, all bodies empty, per function all *other* bodies empty, per function all
+/// other bodies taken from another generated program
+pub fn gen_swap(seed: u64) -> Vec<Prog> {
+    let mut rng = Rng::new(seed ^ 0x5a5a);
+    let base = if rng.chance(2, 3) {
+        gen_wf(seed, &Cfg::wf())
+    } else {
+        gen_wild(seed, &Cfg::wf()).0
+    };
+    let n = base.iter().filter(|t| matches!(t, Top::Fn(_))).count();
+    let donor_prog = gen_wf(seed.wrapping_add(77_777), &Cfg::wf());
+    let donor: Vec<Vec<St>> = donor_prog
+        .iter()
+        .filter_map(|t| match t {
+            Top::Fn(f) => Some(f.body.clone()),
+            _ => None,
+        })
+        .collect();
+    let mut out = vec![base.clone(), with_bodies(&base, None, None)];
+    for i in 0..n {
+        out.push(with_bodies(&base, Some(i), None));
+    }
+    for i in 0..n {
+        out.push(with_bodies(&base, Some(i), Some(&donor)));
+    }
+    out
+}
+
+pub const CLASS_OPS: [Op; 6] = [Op::Minus, Op::Plus, Op::Or, Op::And, Op::Divide, Op::Multiply];
+
+/// a program with one operator chain (operators `ops`) in statement position `position` (0..5)
+pub fn chain_prog(ops: &[Op], operand_kinds: u64, position: usize) -> Prog {
+    let t = Ty::Prim(PT::U8);
+    let mut kinds = operand_kinds;
+    let mut tag = 0u32;
+    let mut operand = |i: usize| -> EV {
+        let k = kinds % 5;
+        kinds /= 5;
+        match k {
+            0 => EV::Lit(PV::U8(i as u8)),
+            1 => EV::Var("p".to_string()),
+            2 => EV::Call("g".to_string(), vec![Ex::single(EV::Lit(PV::U8(i as u8)))]),
+            3 => EV::Sub(Box::new(Ex::chain(
+                EV::Lit(PV::U8(1)),
+                vec![(Op::Minus, EV::Var("p".to_string())), (Op::Multiply, EV::Lit(PV::U8(2)))],
+            ))),
+            _ => {
+                tag += 1;
+                EV::Ext(tag, PT::U8)
+            }
+        }
+    };
+    let head = operand(0);
+    let tail: Vec<(Op, EV)> = ops.iter().enumerate().map(|(i, o)| (*o, operand(i + 1))).collect();
+    let e = Ex::chain(head, tail);
+    let g = Fn {
+        name: "g".to_string(),
+        params: vec![("a".to_string(), t.clone())],
+        result: t.clone(),
+        body: vec![St::Ret(Ex::single(EV::Var("a".to_string())))],
+    };
+    let zero = Ex::single(EV::Lit(PV::U8(0)));
+    let mut body = vec![St::Let(LetS {
+        name: "m".to_string(),
+        mutable: true,
+        ty: None,
+        value: zero.clone(),
+    })];
+    match position % 5 {
+        0 => body.push(St::Let(LetS {
+            name: "x".to_string(),
+            mutable: false,
+            ty: Some(t.clone()),
+            value: e,
+        })),
+        1 => body.push(St::Set(SetS {
+            name: "m".to_string(),
+            value: e,
+        })),
+        2 => body.push(St::Call(CallS {
+            name: "g".to_string(),
+            args: vec![e],
+        })),
+        3 => body.push(St::If(IfS {
+            cond: IfC::Logic(LC {
+                left: Cmp {
+                    left: e,
+                    cond: Cnd::Less,
+                    right: zero.clone(),
+                },
+                right: None,
+            }),
+            body: Bodies::If(vec![]),
+            els: None,
+            elif: None,
+        })),
+        _ => {
+            body.push(St::Ret(e));
+            return vec![
+                Top::Fn(g),
+                Top::Fn(Fn {
+                    name: "main".to_string(),
+                    params: vec![("p".to_string(), t.clone())],
+                    result: t,
+                    body,
+                }),
+            ];
+        }
+    }
+    body.push(St::Ret(zero));
+    vec![
+        Top::Fn(g),
+        Top::Fn(Fn {
+            name: "main".to_string(),
+            params: vec![("p".to_string(), t.clone())],
+            result: t,
+            body,
+        }),
+    ]
+}
+
+/// the `idx`-th chain in the enumeration of all chains over the six priority classes by length
+pub fn chain_by_index(mut idx: u64) -> Vec<Op> {
+    let mut len = 1u32;
+    loop {
+        let n = 6u64.pow(len);
+        if idx < n {
+            break;
+        }
+        idx -= n;
+        len += 1;
+    }
+    (0..len)
+        .map(|_| {
+            let o = CLASS_OPS[(idx % 6) as usize];
+            idx /= 6;
+            o
+        })
+        .collect()
 }
